@@ -423,7 +423,8 @@ pm_node_iterator_create(pm_handle_t pmh, pm_node_iterator_t *pmip)
         return err;
     }
     for (lp = resp; lp != NULL; lp = lp->next) {
-        if (sscanf(lp->data, CP_INFO_XNODES, node) == 1) {
+        if (strlen(lp->data) < sizeof(node)
+                && sscanf(lp->data, CP_INFO_XNODES, node) == 1) {
             if (!(cpy = strdup(node))) {
                 err = PM_ENOMEM;
                 break;
